@@ -5,6 +5,7 @@
 mod analysis;
 mod batch;
 mod c21;
+mod c22;
 mod compare;
 mod emit;
 mod gen;
@@ -12,6 +13,7 @@ mod interp;
 mod ir;
 mod known;
 mod reduce;
+mod rewrite;
 mod sem;
 mod shape;
 
@@ -20,10 +22,13 @@ use vcommon::{Args, Ctx};
 fn main() {
     let args = Args::parse();
     let mut ctx = Ctx::new(args);
-    vcommon::quiet_panics();
+    if std::env::var("DFIRSEM_LOUD").is_err() {
+        vcommon::quiet_panics();
+    }
     let prop = ctx.prop().to_string();
     match prop.as_str() {
         "C21" => c21::run(&mut ctx),
+        "C22" => c22::run(&mut ctx),
         _ => {
             eprintln!("dfirsem does not serve property {prop}");
             std::process::exit(2);
